@@ -386,6 +386,12 @@ def c08_2(ctx: Ctx) -> RuleResult:
 
 
 # --------------------------------------------------------------------- C08.3
+def _nrm(t: Term) -> Term:
+    from ..pattern import norm
+
+    return norm(t)
+
+
 @rule(P)
 def c08_3(ctx: Ctx) -> RuleResult:
     res = RuleResult("C08.3", "COH", "masked linear constraints: rows that touch fixed variables are dropped, free columns kept, fixed values moved to the bounds")
@@ -437,7 +443,7 @@ def c08_3(ctx: Ctx) -> RuleResult:
             b_alts, o_alts = alts(t[2]), alts(t[3])
             b_masked = [a for a in b_alts if a[0] == "sub"]
             b_plain = [a for a in b_alts if a[0] != "sub"]
-            o_masked = [a for a in o_alts if a[0] == "call"]
+            o_masked = [_nrm(a) for a in o_alts if _nrm(a)[0] == "call"]
             o_plain = [a for a in o_alts if a[0] == "const"]
             sel_same = len(b_masked) == 1 and b_masked[0][2] == row_sel and ends_with_attrs(b_masked[0][1], "linear_constraints", f"{name}_bounds")
             off_ok = False
@@ -445,7 +451,7 @@ def c08_3(ctx: Ctx) -> RuleResult:
                 off = o_masked[0]
                 off_ok = (
                     off[1][0] == "global" and off[1][1] in ("numpy.matmul", "numpy.dot") and len(off[2]) == 2
-                    and contains(off[2][0], is_notmask) and contains(off[2][0], lambda s: s == row_sel)
+                    and contains(off[2][0], is_notmask) and contains(off[2][0], lambda s: s == row_sel or s == _nrm(row_sel))
                     and off[2][1][0] == "sub" and is_notmask(off[2][1][2]) and ends_with_attrs(off[2][1][1], "variables", "initial_values")
                 )
             plain_ok = all(ends_with_attrs(a, "linear_constraints", f"{name}_bounds") for a in b_plain) and all(a == ("const", 0) for a in o_plain)
@@ -516,17 +522,28 @@ def c08_4(ctx: Ctx) -> RuleResult:
                     "" if ok else "the parser can return without forwarding max_iterations (e.g. when no options dict is configured): the iteration limit is silently dropped",
                     [] if ok else describe_path(f, path))
             # the returned dict is the one the limit was stored into
-        ok = "maxiter" in store_keys
-        res.add(f, store_keys.get("maxiter", f.node), "max_iterations is stored as `maxiter`", ok, "" if ok else "no options['maxiter'] = max_iterations", construct="maxiter store")
-        ok = "maxfun" in store_keys
-        tnc_ok = False
-        if ok:
-            cur = parent(store_keys["maxfun"])
-            while cur is not None and cur is not f.node:
-                if isinstance(cur, ast.If) and "tnc" in ast.unparse(cur.test).lower() and store_keys["maxfun"] in cur.body:
-                    tnc_ok = True
-                cur = parent(cur)
-        res.add(f, store_keys.get("maxfun", f.node), "for TNC the limit is stored as `maxfun`", ok and tnc_ok,
+        # the stores of the limit: key (possibly chosen by a conditional expression) and the condition
+        # under which each key is used
+        from ..util import bool_nnf, guard_leaves, nnf_literals, path_condition
+
+        keyed: dict = {}
+        for st_ in nodes_in(f, ast.Assign):
+            for tt in st_.targets:
+                if not isinstance(tt, ast.Subscript):
+                    continue
+                if not ends_with_attrs(ctx.X.at(f, st_.value), "optimizer", "max_iterations"):
+                    continue
+                pc = path_condition(ctx, f, st_)
+                for conds, leaf in guard_leaves(ctx.X.value_at(f, tt.slice)):
+                    if leaf[0] != "const":
+                        continue
+                    g_ = bool_nnf(("bool", "and", tuple(c if p else ("unary", "not", c) for c, p in pc) + tuple(a if p else ("unary", "not", a) for a, p in conds))) if (pc or conds) else ("lit", ("const", True), True)
+                    keyed.setdefault(leaf[1], []).append((st_, nnf_literals(g_) if g_[0] in ("and", "lit") else []))
+        ok = "maxiter" in keyed
+        res.add(f, keyed["maxiter"][0][0] if ok else f.node, "max_iterations is stored as `maxiter`", ok, "" if ok else "no options['maxiter'] = max_iterations", construct="maxiter store")
+        ok = "maxfun" in keyed
+        tnc_ok = ok and all(any(p and contains(a, lambda s_: s_ == ("const", "tnc")) for a, p in lits) for _st, lits in keyed["maxfun"])
+        res.add(f, keyed["maxfun"][0][0] if ok else f.node, "for TNC the limit is stored as `maxfun`", bool(ok and tnc_ok),
                 "" if ok and tnc_ok else "TNC does not receive its limit as maxfun", construct="maxfun store for tnc")
     res.floor = 3
     return res
@@ -634,18 +651,20 @@ def c08_6(ctx: Ctx) -> RuleResult:
             chk = g
     if chk is None:
         raise AnalysisError("constraint checker with `have_constraint` not found")
+    from ..util import bool_nnf, path_condition
+
     conds = []
-    for n in nodes_in(chk, ast.If):
-        if any(isinstance(x, ast.Raise) for s in n.body for x in ast.walk(s)):
-            conds.append(ctx.X.value_at(chk, n.test))
-    def has(c, neg_have, neg_in):
-        if c[0] != "bool" or c[1] != "and" or len(c[2]) != 2:
-            return False
-        a, b = c[2]
-        have = (a[0] == "unary" and a[1] == "not" and a[2][0] == "param" and a[2][2] == "have_constraint") if neg_have else (a[0] == "param" and a[2] == "have_constraint")
-        op = "not in" if neg_in else "in"
-        member = b[0] == "cmp" and b[1] == op
+    for r_ in nodes_in(chk, ast.Raise):
+        pc = path_condition(ctx, chk, r_)
+        if pc:
+            g_ = bool_nnf(("bool", "and", tuple(c if p else ("unary", "not", c) for c, p in pc)))
+            conds.append([(it[1], it[2]) for it in (g_[1] if g_[0] == "and" else [g_]) if it[0] == "lit"])
+
+    def has(conj, neg_have, neg_in):
+        have = any(a[0] == "param" and a[2] == "have_constraint" and p == (not neg_have) for a, p in conj)
+        member = any(a[0] == "cmp" and a[1] == "in" and p == (not neg_in) for a, p in conj)
         return have and member
+
     ok1 = any(has(c, False, True) for c in conds)
     ok2 = any(has(c, True, False) for c in conds)
     res.add(chk, chk.node, "a present constraint kind that the method does not support raises", ok1, "" if ok1 else "missing `have and method not in supported -> raise`", construct="checker: unsupported raises")
